@@ -36,10 +36,36 @@ def _setup():
     cmds = importlib.import_module("pedal.core.commands")
 
 
+_CF = {}
+
+
+def _cf_class():
+    """An instructor-defined feedback class with constant fields, created with keyword fields (no fields= dict)."""
+    if 'cls' not in _CF:
+        class misspelled_name(Feedback):
+            category = 'mistakes'
+            constant_fields = {'hint': 'check the spelling'}
+            message_template = "misspelled {name}: {hint}"
+
+            def __init__(self, name, **kwargs):
+                super().__init__(name=name, **kwargs)
+        _CF['cls'] = misspelled_name
+    return _CF['cls']
+
+
 def _mk(desc, k):
     """Create one feedback through the real API from a descriptor."""
     kind = desc.get('via', 'Feedback')
     kw = {a: b for a, b in desc.items() if a != 'via'}
+    if kind == 'CF':
+        name = kw.pop('name')
+        kw.setdefault('label', 'L')
+        fb = _cf_class()(name, **kw)
+        try:
+            fb._verif_req = dict(kw, fields={'name': name, 'hint': 'check the spelling'})
+        except Exception:
+            pass
+        return fb
     if kind == 'Feedback':
         kw.setdefault('label', 'f%d' % k)
         if 'message' in kw and kw['message'] is None:
@@ -97,6 +123,8 @@ ALPHA = [
     dict(category='positive', correct=True, valence=1),
     dict(category='instructions', kind='Instructional', valence=0),
     dict(category='runtime', message=''),
+    dict(via='CF', name='totl'),
+    dict(via='CF', name='cnt'),
 ]
 ALPHA_NONE = [dict(category=None), dict(category=None, priority='high')]
 
@@ -108,6 +136,8 @@ SUP_FORMS = [
     (None, 'L', None),
     (None, 'L', {'x': 2}),
     (None, 'L', {'x': 1}),
+    (None, 'L', {'name': 'totl'}),
+    ('mistakes', 'L', {'name': 'cnt'}),
     (None, 'absent', None),
     ('parser', True, None),
     ('INSTRUCTOR', True, None),
@@ -236,7 +266,7 @@ def body_grid(ctx):
     _judge(ctx, fbs, [], {'feedbacks': [d1, d2], 'suppressions': []})
 
 
-SUP_CATS = [c for c in CATS if c is not None] + ['parser', 'verifier', 'analyzer', 'Style', 'zzz']
+SUP_CATS = [c for c in CATS if c is not None] + ['parser', 'verifier', 'analyzer', 'Style', 'zzz', 'Analyzer', 'PARSER', 'Verifier']
 
 
 def body_category_suppression(ctx):
